@@ -11,6 +11,7 @@ at most half the capacity is live. Every look-up terminates, also for absent key
 saturated with tombstones.
 -/
 import Hb.Proofs.Churn
+import Hb.Proofs.ChurnX
 import Hb.Proofs.FindSpec
 import Hb.Proofs.Probe
 namespace Hb.C13
@@ -24,6 +25,40 @@ theorem churn_capacity_bound (hc : CfgOk cfg) (hg : GuardRuns cfg) (env : Env)
     (obs : List Map.Obs) (w : World) (hrun : Map.run cfg env ops w0 = some (obs, w)) :
     TInv cfg w.t ∧ bucketMaskToCapacity w.t.mask ≤ max 14 (4 * Map.runPeak cfg env ops w0) :=
   churn_bound hc (probe_covers cfg hc.spec.width) hg env ops hops w0 h0 obs w hrun
+
+/-- The same bound when insertions and removals ALSO go through the entry-style APIs: histories of
+    `MapOpX` whose calls are insert / get / get_mut / remove / remove_entry, `entry` / `entry_ref` /
+    `rustc_entry` / `raw_entry_mut` with ANY method chain (vacant inserts, occupied removes, in-place
+    replacement), `raw_entry`, `try_insert`, `get_many_mut`, `Index` — every environment, unbounded
+    length. (`extend` is excluded because it reserves from the iterator's size hint: that is an explicit
+    reservation, and `extend_reserves_from_hint` is the machine-checked witness that it exceeds the
+    bound.) -/
+theorem churn_capacity_bound_all_insert_remove_paths (hc : CfgOk cfg) (hg : GuardRuns cfg) (env : Env)
+    (ops : List MapOpX) (hops : ∀ op ∈ ops, ChurnOpXR op) (w0 : World) (h0 : w0.t = Raw.new cfg.W)
+    (obs : List Map.ObsX) (w : World) (hrun : Map.runX cfg env ops w0 = some (obs, w)) :
+    TInv cfg w.t ∧ bucketMaskToCapacity w.t.mask ≤ max 14 (4 * Map.runXPeak cfg env ops w0) :=
+  churnXR_bound hc hg env ops hops w0 h0 obs w hrun
+
+/-- Bytes held ≤ 4× the layout `with_capacity(n)` would allocate, for the extended histories. -/
+theorem churn_bytes_bound_all_insert_remove_paths (hc : CfgOk cfg) (hg : GuardRuns cfg)
+    (env : Env) (ops : List MapOpX) (hops : ∀ op ∈ ops, ChurnOpXR op) (w0 : World)
+    (h0 : w0.t = Raw.new cfg.W) (obs : List Map.ObsX) (w : World)
+    (hrun : Map.runX cfg env ops w0 = some (obs, w))
+    (n b : Nat) (hn : n ≠ 0) (hpk : Map.runXPeak cfg env ops w0 ≤ n)
+    (hb : capacityToBuckets cfg.bits cfg.W cfg.size n = some b) :
+    ∃ s, allocationSize cfg w.t = .ok s ∧
+      (∀ l, calculateLayoutFor cfg.bits cfg.W cfg.size (ctrlAlignOf cfg) b = some l →
+        s ≤ 4 * l.size) ∧
+      (∀ L, calculateLayoutFor cfg.bits cfg.W cfg.size (ctrlAlignOf cfg) (4 * b) = some L →
+        s ≤ L.size) :=
+  churnX_bound_bytes hc hg env ops hops w0 h0 obs w hrun n b hn hpk hb
+
+/-- Why `extend` is not a churn operation: one `extend` of 20 pairs carrying the same key has peak
+    `len` 1 and ends with 32 buckets (capacity 28 > max 14 (4·1)) — it reserved for the size hint. -/
+theorem extend_reserves_from_hint :
+    Map.runXPeak { ops := Generic.ops } chEnv cxExtOps { t := Raw.new 8 } = 1 ∧
+    cxSummary { ops := Generic.ops } chEnv cxExtOps { t := Raw.new 8 } = some (31, 1, 27, 0) ∧
+    ¬ bucketMaskToCapacity 31 ≤ max 14 (4 * 1) := extend_breaks_churn_bound
 
 /-- `runPeak` really is the peak: it dominates `len()` at the start of the run. -/
 theorem peak_dominates (env : Env) (ops : List MapOp) (w : World) :
@@ -89,6 +124,9 @@ theorem lookup_terminates (hc : CfgOk cfg) (env : Env) (hash q : Nat) (w : World
   find_total hc (probe_covers cfg hc.spec.width) env hash q w h
 
 #print axioms churn_capacity_bound
+#print axioms churn_capacity_bound_all_insert_remove_paths
+#print axioms churn_bytes_bound_all_insert_remove_paths
+#print axioms extend_reserves_from_hint
 #print axioms peak_dominates
 #print axioms churn_buckets_bound
 #print axioms churn_bytes_bound
